@@ -77,7 +77,7 @@ extern void (*sim_budget_handler)(void);
 /* statistics */
 typedef struct {
 	long steps, decisions, switches, spurious, cond_waits, cond_wait_blocked,
-	     mutex_contended, threads_created, max_runnable, stalled_skips;
+	     mutex_contended, threads_created, max_runnable, stalled_skips, cond_waits_t0;
 } sim_sched_stats_t;
 extern sim_sched_stats_t sim_sched_stats;
 
